@@ -14,12 +14,14 @@ package c13
 
 import (
 	"bytes"
+	"math"
 	"math/big"
 	"sort"
 
 	"github.com/zclconf/go-cty/cty"
 	"github.com/zclconf/go-cty/cty/convert"
 
+	"verif/harness/model"
 	"verif/harness/mon"
 )
 
@@ -31,6 +33,7 @@ type Ref struct {
 	Val       cty.Value // expected result when !Err && !Skip
 	OrderFree bool      // the order of the result's elements is not asserted (a set whose members have no documented order was traversed)
 	Clauses   []string  // reference clauses that decided this case (counted in the evidence as clause:<fn>:<name>)
+	ExactNums bool      // the result is a list of numbers that must also agree as exact values (not only by documented equality)
 }
 
 // cl records which clauses of the reference decided the case.
@@ -179,6 +182,12 @@ func typesOf(es []cty.Value) []cty.Type {
 	return ts
 }
 
+// partlyDynamic: a type with dynamic parts that is not the dynamic placeholder itself. Only empty collections have
+// such (element) types. What "the unified type" of such a type and concrete ones is, and whether the empty
+// collection converts to it, is the unification's and the conversions' business (C08 / C09) and nothing the
+// function descriptions speak about: the references that unify argument types assert nothing there.
+func partlyDynamic(t cty.Type) bool { return t != cty.DynamicPseudoType && t.HasDynamicTypes() }
+
 // ---- the call protocol's documented part --------------------------------------
 
 // anyNull: a null argument where the parameter does not allow null is outside
@@ -321,6 +330,12 @@ func refLookup(a []cty.Value) Ref {
 	switch kindOf(a[0].Type()) {
 	case "map":
 		ety := a[0].Type().ElementType()
+		if ety == cty.DynamicPseudoType {
+			// only the empty map has this type: no key is present, and "converted to the element type" asks nothing of the default
+			if len(a[0].AsValueMap()) == 0 {
+				return good(a[2]).cl("empty-map-of-dynamic-default-as-given")
+			}
+		}
 		if ety.HasDynamicTypes() {
 			return skip("map element type has dynamic parts")
 		}
@@ -478,6 +493,11 @@ func refConcat(a []cty.Value) Ref {
 		all = append(all, v.AsValueSlice()...)
 	}
 	if allLists {
+		for _, e := range etys {
+			if partlyDynamic(e) {
+				return skip("an argument's element type has dynamic parts inside")
+			}
+		}
 		ety, _ := convert.UnifyUnsafe(etys)
 		if ety != cty.NilType {
 			if ety.HasDynamicTypes() {
@@ -767,43 +787,69 @@ func ratOf(v cty.Value) (*big.Rat, bool) {
 	return r, r != nil
 }
 
-func numOfRat(r *big.Rat) cty.Value {
-	f := new(big.Float).SetPrec(512).SetRat(r)
-	return cty.NumberVal(f)
+// docEqualNums is model.NumEqualDoc(a, b) for finite a, b with cmp = a.Cmp(b), without producing the decimal
+// texts where the answer is plain: numbers of one precision have the same shortest text exactly when they are
+// the same number, whole numbers are compared as integers, and two texts can only coincide when the values are
+// within an ulp of the coarser precision (24 bits at least here) of each other.
+func docEqualNums(a, b *big.Float, cmp int) bool {
+	if a.Prec() == b.Prec() || a.IsInt() || b.IsInt() {
+		return cmp == 0 && a.IsInt() == b.IsInt()
+	}
+	if cmp != 0 && a.Prec() >= 24 && b.Prec() >= 24 {
+		fa, _ := a.Float64()
+		fb, _ := b.Float64()
+		if d := math.Abs(fa - fb); !math.IsInf(fa, 0) && !math.IsInf(fb, 0) && fa != 0 && fb != 0 && d > 1e-4*math.Abs(fb) {
+			return false
+		}
+	}
+	return model.NumEqualDoc(a, b)
 }
 
+// intFloat is the number an integer literal stands for (what cty.NumberIntVal builds: 64 bits of mantissa).
+func intFloat(i int64) *big.Float { return new(big.Float).SetInt64(i) }
+
+// refRange follows the documented wording literally: "starting from the given
+// starting value, then adding the given step value until the result is greater
+// than or equal to the given stopping value; each intermediate result becomes
+// an element". Adding two cty numbers is adding two big.Floats (result
+// precision = the larger of the operands' precisions, round to nearest even;
+// trusted base, C02/C14's subject), so element k is the k-fold RUNNING sum,
+// which for a step that is not a short binary fraction differs from
+// start + k*step computed in one go, in the values and sometimes in the count.
+// Whenever no sum rounds, the closed form over exact rationals must give the
+// same list (checked here; a difference is a harness fault).
 func refRange(a []cty.Value) Ref {
 	if r, ok := pre(a, 1, 3); !ok {
 		return r
 	}
-	rs := make([]*big.Rat, len(a))
+	fs := make([]*big.Float, len(a))
 	for i, v := range a {
 		if v.Type() != cty.Number {
 			return bad("argument is not a number")
 		}
-		q, ok := ratOf(v)
-		if !ok {
+		f := v.AsBigFloat()
+		if f.IsInf() {
 			return skip("infinite argument: nothing documented")
 		}
-		rs[i] = q
+		fs[i] = f
 	}
-	one, zero := big.NewRat(1, 1), new(big.Rat)
-	var start, end, step *big.Rat
-	switch len(rs) {
+	var start, end, step *big.Float
+	implicit := len(fs) < 3
+	switch len(fs) {
 	case 1:
-		start, end = zero, rs[0]
-		step = one
+		start, end = intFloat(0), fs[0]
+		step = intFloat(1)
 		if end.Sign() < 0 {
-			step = big.NewRat(-1, 1)
+			step = intFloat(-1)
 		}
 	case 2:
-		start, end = rs[0], rs[1]
-		step = one
+		start, end = fs[0], fs[1]
+		step = intFloat(1)
 		if end.Cmp(start) < 0 {
-			step = big.NewRat(-1, 1)
+			step = intFloat(-1)
 		}
 	case 3:
-		start, end, step = rs[0], rs[1], rs[2]
+		start, end, step = fs[0], fs[1], fs[2]
 		if step.Sign() == 0 {
 			return bad("step is zero")
 		}
@@ -814,31 +860,73 @@ func refRange(a []cty.Value) Ref {
 			return bad("end after start with a negative step")
 		}
 	}
-	// number of k >= 0 with start + k*step strictly before end = ceil((end-start)/step)
-	q := new(big.Rat).Quo(new(big.Rat).Sub(end, start), step)
-	cnt := new(big.Int).Quo(q.Num(), q.Denom()) // truncates toward zero; q >= 0 here
-	if new(big.Rat).SetInt(cnt).Cmp(q) < 0 {
-		cnt.Add(cnt, big.NewInt(1))
+	down := step.Sign() < 0
+	var sums []*big.Float
+	exact := true
+	for num := start; ; {
+		cmp := num.Cmp(end)
+		if (cmp == 0) != docEqualNums(num, end, cmp) {
+			// "greater than or equal" is decided by the library with cty's own operators, whose "equal" is the
+			// documented number equality (shortest decimal text at each operand's own precision), not equality of
+			// the exact values: a rounded sum can be "equal" to an end it has not reached, and the same exact value
+			// held at two precisions can be "unequal". Which of the two the wording means is not documented.
+			return skip("a running sum and the end are equal under one of exact / documented number equality only")
+		}
+		if down && cmp <= 0 || !down && cmp >= 0 {
+			break
+		}
+		if len(sums) >= 1024 {
+			return bad("more than 1024 elements")
+		}
+		sums = append(sums, num)
+		next := new(big.Float).Add(num, step) // precision 0: takes the larger of the operands' precisions
+		if next.Acc() != big.Exact {
+			exact = false
+		}
+		num = next
 	}
-	if cnt.Cmp(big.NewInt(1024)) > 0 {
-		return bad("more than 1024 elements")
+	if !exact && implicit {
+		return skip("a running sum rounds with the implicit step: the precision of the implicit operands is not documented")
 	}
-	n := int(cnt.Int64())
+	if exact {
+		// closed form: the k >= 0 with start + k*step strictly before end are 0 .. ceil((end-start)/step)-1
+		rs, _ := start.Rat(nil)
+		re, _ := end.Rat(nil)
+		rp, _ := step.Rat(nil)
+		q := new(big.Rat).Quo(new(big.Rat).Sub(re, rs), rp)
+		cnt := new(big.Int).Quo(q.Num(), q.Denom()) // truncates toward zero; q >= 0 here
+		if new(big.Rat).SetInt(cnt).Cmp(q) < 0 {
+			cnt.Add(cnt, big.NewInt(1))
+		}
+		if !cnt.IsInt64() || cnt.Int64() != int64(len(sums)) {
+			panic("refRange: exact running sums and the closed form disagree on the element count")
+		}
+		for k, x := range sums {
+			want := new(big.Rat).Add(rs, new(big.Rat).Mul(big.NewRat(int64(k), 1), rp))
+			if xr, _ := x.Rat(nil); xr.Cmp(want) != 0 {
+				panic("refRange: exact running sums and the closed form disagree on an element")
+			}
+		}
+	}
+	n := len(sums)
 	out := make([]cty.Value, n)
-	for k := 0; k < n; k++ {
-		x := new(big.Rat).Add(start, new(big.Rat).Mul(big.NewRat(int64(k), 1), step))
-		out[k] = numOfRat(x)
+	for k, x := range sums {
+		out[k] = cty.NumberVal(x)
 	}
 	cl := "ascending"
 	switch {
 	case n == 0:
 		cl = "empty"
-	case step.Sign() < 0:
+	case down:
 		cl = "descending"
 	}
 	r := good(mkList(cty.Number, out)).cl(cl)
+	r.ExactNums = true
 	if !step.IsInt() || !start.IsInt() {
 		r = r.cl("fractional")
+	}
+	if !exact {
+		r = r.cl("running-sums-rounded")
 	}
 	if n == 1024 {
 		r = r.cl("exactly-1024")
@@ -849,6 +937,11 @@ func refRange(a []cty.Value) Ref {
 func refCoalesce(a []cty.Value) Ref {
 	if len(a) == 0 {
 		return bad("no arguments")
+	}
+	for _, t := range typesOf(a) {
+		if partlyDynamic(t) {
+			return skip("an argument's type has dynamic parts inside")
+		}
 	}
 	ty, _ := convert.UnifyUnsafe(typesOf(a))
 	if ty == cty.NilType {
@@ -993,6 +1086,11 @@ func setArgs(a []cty.Value) (ety cty.Type, sets [][]cty.Value, r Ref, ok bool) {
 			continue
 		}
 		etys = append(etys, e)
+	}
+	for _, e := range etys {
+		if partlyDynamic(e) {
+			return cty.NilType, nil, skip("an argument's element type has dynamic parts inside"), false
+		}
 	}
 	if len(etys) == 0 {
 		ety = cty.DynamicPseudoType
